@@ -1589,9 +1589,23 @@ class TaskScenario(ScenarioData):
         if assigned:
             return assigned
 
-        # Fall back to allocate (which may contain IDs or resource objects)
+        # The resources the scheduler actually chose (primaries or alternatives)
+        if self._selectedResources:
+            return list(self._selectedResources)
+
+        # Fall back to allocate (which may contain IDs or resource objects, or a single
+        # dict {"resources": [...], "options": {...}} when the allocation carries options)
         allocate = self.property.get("allocate", self.scenarioIdx) or []
+        if isinstance(allocate, dict):
+            allocate = [allocate]
+        expanded: list[Any] = []
         for res in allocate:
+            if isinstance(res, dict):
+                expanded.extend(res.get("resources", []))
+                expanded.extend(res.get("options", {}).get("alternative", []))
+            else:
+                expanded.append(res)
+        for res in expanded:
             if isinstance(res, str):
                 # Look up resource by ID
                 for resource in self.project.resources:
